@@ -36,6 +36,53 @@ def phasors(repo, facts=None):
     return f, out, returns(paths)
 
 
+def product_rule(chk, repo, clause):
+    """Whatever Plane.multiply appends to the new wavefront is the product `field * phasor` of an incoming field with a
+    phasor of this plane - on every path, also for a unit plane wave (the incoming field carries the tilt met so far and
+    its own offset; using the phasor alone drops them)."""
+    wf = repo.cls('wavefront.Wavefront')
+    f, paths, _ = analyse(repo, 'plane.Plane.multiply', types={('sym', 'wavefront'): wf}, max_paths=1024)
+    ok, n, det = True, 0, ''
+    for p in returns(paths):
+        loops = p.state.loops
+        states = [bs for lp in loops for bs in lp['states']] or [p.state]
+        seen_nodes = set()
+        for bs in states:
+            evs = bs.events
+            muls = {nf.vkey(e.data.get('result')): e for e in evs if e.kind == 'call' and e.data.get('callee') == 'field.Field.__mul__'}
+            phs = {nf.vkey(e.data.get('result')) for e in evs if e.kind == 'call' and e.data.get('new') == 'field.Field'}
+            for e in evs:
+                if e.kind != 'write' or e.data.get('how') != 'method:append' or id(e) in seen_nodes:
+                    continue
+                ta = e.target.single_atom() if isinstance(e.target, Poly) else None
+                if ta is None or ta[0] != 'attr' or ta[2] != 'data':
+                    continue
+                seen_nodes.add(id(e))
+                n += 1
+                v = e.data['args'][0] if e.data.get('args') else None
+                m = muls.get(nf.vkey(v)) if v is not None else None
+                good = False
+                if m is not None:
+                    a, b = m.bound.get('self'), m.bound.get('other')
+                    incoming = [x for x in (a, b) if x is not None and any(y[0] == 'iter' for y in nf.value_atoms(x))
+                                and nf.vkey(x) not in phs]
+                    phasor = [x for x in (a, b) if x is not None and nf.vkey(x) in phs]
+                    good = len(incoming) == 1 and len(phasor) == 1
+                if not good and isinstance(v, Poly) and len(v.terms) == 1 and v.terms[0][1] == 1:
+                    # the operator form `field * phasor` between two objects: a product of exactly those two values
+                    mono = v.terms[0][0]
+                    if len(mono) == 2 and all(e_ == 1 for _, e_ in mono):
+                        vals = [Poly.atom(a_) for a_, _ in mono]
+                        incoming = [x for x in vals if any(y[0] == 'iter' for y in nf.value_atoms(x)) and nf.vkey(x) not in phs]
+                        phasor = [x for x in vals if nf.vkey(x) in phs]
+                        good = len(incoming) == 1 and len(phasor) == 1
+                if not good:
+                    ok = False
+                    det = f'appends {fmt(v)[:100] if v is not None else "?"}, which is not incoming field * phasor'
+    chk.ob(clause, 'D-flow', f.key, 'every field of the product wavefront is (incoming field) * (phasor of this plane)',
+           (ok and n > 0) if (n or not ok) else None, det or f'{n} append(s)', f.loc())
+
+
 def is_mask_atom(a):
     """self.mask / self._mask possibly indexed."""
     masks = self_attr('mask')
